@@ -360,6 +360,30 @@ class DriverError(Exception):
     pass
 
 
+def strided_view(x, how):
+    """the same values as the 1-D array `x`, held in memory that is NOT contiguous: every other element of a longer
+    array (`step2`), one channel of an interleaved stereo buffer (`column`), or a reversed array read backwards
+    (`negative`: stride < 0).  Legal NumPy arrays that code using `itemsize` instead of `strides`, `np.frombuffer`,
+    `.data`, `reshape(-1)` without a copy, or raw pointer arithmetic gets wrong."""
+    import numpy as np
+    x = np.asarray(x)
+    if how == "step2":
+        base = np.full(2 * len(x) + 1, np.nan if x.dtype.kind == "f" else 0, dtype=x.dtype)
+        base[0:2 * len(x):2] = x
+        v = base[0:2 * len(x):2]
+    elif how == "column":
+        base = np.full((len(x), 2), np.nan if x.dtype.kind == "f" else 0, dtype=x.dtype)
+        base[:, 0] = x
+        v = base[:, 0]
+    elif how == "negative":
+        base = np.ascontiguousarray(x[::-1])
+        v = base[::-1]
+    else:
+        raise ValueError(how)
+    assert v.shape == x.shape and (len(x) < 2 or not v.flags["C_CONTIGUOUS"] or how == "negative")
+    return v
+
+
 # ---- floats over the line protocol ---------------------------------------------------------
 import struct
 
